@@ -17,7 +17,7 @@ from collections.abc import Callable, Iterable, Sized
 from dataclasses import dataclass, field
 from functools import wraps
 from itertools import count
-from math import inf
+from math import inf, isnan
 from opcode import opname
 from types import BuiltinFunctionType, BuiltinMethodType, CodeType, MethodType, TracebackType
 from typing import TYPE_CHECKING, Concatenate, ParamSpec
@@ -1033,6 +1033,11 @@ def _eq(val1, val2) -> float:
             return 0.0
     except TypeError:
         pass
+    return _eq_distance(val1, val2)
+
+
+def _eq_distance(val1, val2) -> float:
+    """How far two unequal values are from being equal."""
     if is_numeric(val1) and is_numeric(val2):
         return float(abs(val1 - val2))
     if is_string(val1) and is_string(val2):
@@ -1069,6 +1074,11 @@ def _lt(val1, val2) -> float:
     """
     if val1 < val2:
         return 0.0
+    return _lt_distance(val1, val2)
+
+
+def _lt_distance(val1, val2) -> float:
+    """How far val1 is from being less than val2, given that it is not."""
     if is_numeric(val1) and is_numeric(val2):
         return (float(val1) - float(val2)) + 1.0
     if is_string(val1) and is_string(val2):
@@ -1090,6 +1100,11 @@ def _le(val1, val2) -> float:
     """
     if val1 <= val2:
         return 0.0
+    return _le_distance(val1, val2)
+
+
+def _le_distance(val1, val2) -> float:
+    """How far val1 is from being less than or equal to val2, given that it is not."""
     if is_numeric(val1) and is_numeric(val2):
         return float(val1) - float(val2)
     if is_string(val1) and is_string(val2):
@@ -1120,6 +1135,11 @@ def _in(val1, val2) -> float:
     #  Check only if collection size is within some range,
     #  otherwise the check might take very long.
 
+    return _in_distance(val1, val2)
+
+
+def _in_distance(val1, val2) -> float:
+    """How far val1 is from being contained in val2, given that it is not."""
     # If `val2` is not iterable, there is no element to compare against.
     if not isinstance(val2, Iterable):
         return inf
@@ -1175,6 +1195,41 @@ def _isn(val1, val2) -> float:
     if val1 is not val2:
         return 0.0
     return 1.0
+
+
+def _one(_val1, _val2) -> float:
+    return 1.0
+
+
+def _swapped(distance: Callable[[object, object], float]) -> Callable[[object, object], float]:
+    return lambda val1, val2: distance(val2, val1)
+
+
+def _other_branch(distance: Callable[[object, object], float], val1, val2=None) -> float:
+    """Distance to the branch that was not taken.
+
+    The heuristics are written for well-behaved values.  For NaN, integers beyond
+    the precision or range of floats, mixed numeric types or partially ordered values
+    they may raise or yield NaN or 0.0.  The branch not taken must have a positive
+    distance, and computing it must never raise into the SUT.
+
+    Args:
+        distance: the heuristic
+        val1: the first value
+        val2: the second value
+
+    Returns:
+        A positive distance that is not NaN
+    """
+    try:
+        result = float(distance(val1, val2))
+    except Exception:  # noqa: BLE001
+        return inf
+    if isnan(result):
+        return inf
+    if result <= 0.0:
+        return 1.0
+    return result
 
 
 _P = ParamSpec("_P")
@@ -1315,53 +1370,46 @@ class ExecutionTracer(AbstractExecutionTracer):  # noqa: PLR0904
             value1 = tt.unwrap(value1)
             value2 = tt.unwrap(value2)
 
+            # Python's own operator decides which branch is taken (it raises only if
+            # the comparison in the SUT raises as well).  The heuristics then only
+            # estimate how far away the *other* branch is.
             match cmp_op:
                 case PynguinCompare.EQ:
-                    distance_true, distance_false = _eq(value1, value2), _neq(value1, value2)
+                    taken = value1 == value2
+                    to_true, to_false = _eq_distance, _one
                 case PynguinCompare.NE:
-                    distance_true, distance_false = _neq(value1, value2), _eq(value1, value2)
+                    taken = value1 != value2
+                    to_true, to_false = _one, _eq_distance
                 case PynguinCompare.LT:
-                    distance_true, distance_false = (
-                        _lt(value1, value2),
-                        _le(value2, value1),
-                    )
+                    taken = value1 < value2
+                    to_true, to_false = _lt_distance, _swapped(_le_distance)
                 case PynguinCompare.LE:
-                    distance_true, distance_false = (
-                        _le(value1, value2),
-                        _lt(value2, value1),
-                    )
+                    taken = value1 <= value2
+                    to_true, to_false = _le_distance, _swapped(_lt_distance)
                 case PynguinCompare.GT:
-                    distance_true, distance_false = (
-                        _lt(value2, value1),
-                        _le(value1, value2),
-                    )
+                    taken = value1 > value2
+                    to_true, to_false = _swapped(_lt_distance), _le_distance
                 case PynguinCompare.GE:
-                    distance_true, distance_false = (
-                        _le(value2, value1),
-                        _lt(value1, value2),
-                    )
+                    taken = value1 >= value2
+                    to_true, to_false = _swapped(_le_distance), _lt_distance
                 case PynguinCompare.IN:
-                    distance_true, distance_false = (
-                        _in(value1, value2),
-                        _nin(value1, value2),
-                    )
+                    taken = value1 in value2
+                    to_true, to_false = _in_distance, _one
                 case PynguinCompare.NOT_IN:
-                    distance_true, distance_false = (
-                        _nin(value1, value2),
-                        _in(value1, value2),
-                    )
+                    taken = value1 not in value2
+                    to_true, to_false = _one, _in_distance
                 case PynguinCompare.IS:
-                    distance_true, distance_false = (
-                        _is(value1, value2),
-                        _isn(value1, value2),
-                    )
+                    taken = value1 is value2
+                    to_true, to_false = _one, _one
                 case PynguinCompare.IS_NOT:
-                    distance_true, distance_false = (
-                        _isn(value1, value2),
-                        _is(value1, value2),
-                    )
+                    taken = value1 is not value2
+                    to_true, to_false = _one, _one
                 case _:
                     raise AssertionError("Unknown compare op")
+            if taken:
+                distance_true, distance_false = 0.0, _other_branch(to_false, value1, value2)
+            else:
+                distance_true, distance_false = _other_branch(to_true, value1, value2), 0.0
             self._update_metrics(distance_false, distance_true, predicate)
 
     @_early_return
@@ -1376,10 +1424,10 @@ class ExecutionTracer(AbstractExecutionTracer):  # noqa: PLR0904
                     # Sized instances evaluate to False if they are empty,
                     # and to True otherwise, thus we can use their size as a distance
                     # measurement.
-                    distance_false = len(value)
+                    distance_false = _other_branch(lambda val, _: len(val), value)
                 elif is_numeric(value):
                     # For numeric value, we can use their absolute value
-                    distance_false = float(abs(value))
+                    distance_false = _other_branch(lambda val, _: abs(val), value)
                 else:
                     # Necessary to use inf instead of 1.0 here,
                     # so that a value for which we can't compute a false distance
